@@ -13,6 +13,7 @@ import IgrisModel.C17.Lemmas
 import IgrisModel.C17.RefLemmas
 import IgrisModel.C17.LenLemmas
 import IgrisModel.C17.R3Lemmas
+import IgrisModel.C17.R3Witness
 import IgrisModel.C17.Gf2Lemmas
 namespace Igris.C17
 open Igris.Proto
@@ -412,6 +413,17 @@ theorem crc32_models_agree {τ : Type} (emit : Nat → τ → τ) (mem : List By
   split <;> rfl
 
 example : (7 : Nat) < 2 ^ 32 := by decide
+
+/-- why the widths matter: with 16-bit `bodySize`/`i` (seeded change
+`C17-crc32-bodysize-uint16`) a call with `length = 2^18` processes no word at
+all — it returns the seed without a single read even when nothing is mapped,
+where the routine reads all 262144 bytes (`crc32_access`: it faults) -/
+theorem crc32_uint16_counter_witness (seed : BitVec 32) :
+    crc32GNarrow (listRd []) logEv 262144#32 seed [] = some (seed, []) ∧
+    crc32G (listRd []) logEv 262144#32 seed [] = none := by
+  constructor
+  · rfl
+  · rw [crc32_access]; rfl
 
 /-- no routine ever stores into its buffer, and no access is outside `[0, len)`:
 said about the logs the five index-level models return -/
